@@ -187,6 +187,10 @@ type historyCase struct {
 	// reader has to fall back to trex. The library has no option that does this.
 	TrexDrop bool `json:"trexDrop,omitempty"`
 	NoAvoid  bool `json:"noAvoid,omitempty"`
+	// SharedSrc: the sample batches given to AddSamples / AddSampleInterval are consecutive sub-slices of ONE
+	// long slice with spare capacity behind each batch (the way a caller cuts the samples of a source track into
+	// intervals), instead of a freshly allocated slice per call.
+	SharedSrc bool `json:"sharedSrc,omitempty"`
 }
 
 // sampleBytes: the bytes of the ctr-th sample added in the history (all tracks counted together). The counter enters
@@ -339,6 +343,10 @@ func interpret(c *historyCase, st *stats) (*built, *harness.Fail) {
 	}
 	b := &built{init: mp4.CreateEmptyInit(), model: make([][]modelSample, len(c.Tracks))}
 	times := make([]uint64, len(c.Tracks))
+	var srcPool []mp4.Sample // SharedSrc: the caller's long sample slice
+	if c.SharedSrc {
+		srcPool = make([]mp4.Sample, 0, 1<<16)
+	}
 	for i, td := range c.Tracks {
 		b.init.AddEmptyTrack(td.Timescale, td.Media, "und")
 		trak := b.init.Moov.Traks[i]
@@ -579,6 +587,12 @@ func interpret(c *historyCase, st *stats) (*built, *harness.Fail) {
 			times[ti] += uint64(sd.Dur)
 			ss = append(ss, mp4.Sample{Flags: sd.Flags, Dur: sd.Dur, Size: uint32(sd.Size), CompositionTimeOffset: sd.Cto})
 			all = append(all, d...)
+		}
+		if c.SharedSrc && (o.Kind == "metaMany" || o.Kind == "interval") && len(srcPool)+len(ss) <= cap(srcPool) {
+			from := len(srcPool)
+			srcPool = append(srcPool, ss...)
+			ss = srcPool[from:len(srcPool)] // capacity reaches to the end of the caller's slice
+			st.class("batch-is-sub-slice-of-a-longer-caller-slice")
 		}
 		if n := len(cf.runs); n == 0 || cf.runs[n-1] != ti {
 			cf.runs = append(cf.runs, ti)
@@ -1493,6 +1507,7 @@ func genCase(t *rapid.T) historyCase {
 		}
 		c.Tracks = append(c.Tracks, td)
 	}
+	c.SharedSrc = rapid.IntRange(0, 2).Draw(t, "sharedSrc") == 0
 	c.SeqStart = rapid.SampledFrom([]uint32{1, 1, 0, 100, 0xfffffff0}).Draw(t, "seqStart")
 	c.Encoder = rapid.SampledFrom([]string{"w", "sw", "w", "sw", "w", "sw", "w", "sw", "w", ""}).Draw(t, "encoder") // "": both, on the same history
 	topKinds := []string{"prft0", "prft1", "free", "skip", "uuid", "unknown"}
